@@ -93,6 +93,11 @@ func Geometry(b orb.Bound, g orb.Geometry) orb.Geometry {
 
 		return c
 	case orb.Bound:
+		if g.IsEmpty() {
+			// Bound() treats an empty argument as "no constraint" and would return the clip box
+			return nil
+		}
+
 		b = Bound(b, g)
 		if b.IsEmpty() {
 			return nil
